@@ -1,0 +1,195 @@
+//go:build verif
+
+package mangos
+
+// Message-ownership ledger used by the runtime monitors under /verif.  It is
+// compiled only with the "verif" build tag.  It keeps no shadow reference
+// counts: every check reads the message's own refcnt atomically inside the
+// call that is about to change it.
+
+import (
+	"runtime"
+	"sync"
+	"sync/atomic"
+)
+
+const verifPoison = 0xDB
+const verifRingSize = 256
+
+// VerifLedgerEvent is one ownership violation seen by the ledger.
+type VerifLedgerEvent struct {
+	Kind  string // double-release | use-after-release:<op> | write-after-release | new-postcondition
+	Info  string
+	Stack string
+}
+
+// VerifLedgerSnapshot is a copy of the ledger state.
+type VerifLedgerSnapshot struct {
+	Events    []VerifLedgerEvent
+	NEvents   int64
+	News      int64 // NewMessage calls
+	Releases  int64 // reference counts that reached zero
+	MaxSize   int64 // largest size ever passed to NewMessage
+	Poisoned  int64 // buffers poisoned on release
+	Rechecked int64 // poisoned buffers re-checked intact (ring eviction or reuse)
+}
+
+var verifLedger struct {
+	sync.Mutex
+	events []VerifLedgerEvent
+	ring   [verifRingSize]*Message
+	pos    int
+}
+var verifNEvents, verifNews, verifReleases, verifMaxSize, verifPoisoned, verifRechecked int64
+
+func verifEvent(kind, info string) {
+	atomic.AddInt64(&verifNEvents, 1)
+	buf := make([]byte, 4096)
+	n := runtime.Stack(buf, false)
+	verifLedger.Lock()
+	if len(verifLedger.events) < 20 {
+		verifLedger.events = append(verifLedger.events, VerifLedgerEvent{Kind: kind, Info: info, Stack: string(buf[:n])})
+	}
+	verifLedger.Unlock()
+}
+
+func verifFree(m *Message) {
+	if m.bsize != 0 && atomic.LoadInt32(&m.refcnt) <= 0 {
+		verifEvent("double-release", "")
+	}
+}
+
+func verifUse(m *Message, op string) {
+	if m.bsize != 0 && atomic.LoadInt32(&m.refcnt) <= 0 {
+		verifEvent("use-after-release:"+op, "")
+	}
+}
+
+func verifPoisonIntact(m *Message) bool {
+	b := m.bbuf[:cap(m.bbuf)]
+	for i := range b {
+		if b[i] != verifPoison {
+			return false
+		}
+	}
+	h := m.hbuf[:cap(m.hbuf)]
+	for i := range h {
+		if h[i] != verifPoison {
+			return false
+		}
+	}
+	return true
+}
+
+// verifRelease runs when the count reached zero: poison the pool-owned
+// buffers and park the message in a quarantine ring before the pool sees it.
+func verifRelease(m *Message) bool {
+	atomic.AddInt64(&verifReleases, 1)
+	pooled := false
+	for i := range messageCache {
+		if m.bsize == messageCache[i].maxbody {
+			pooled = true
+		}
+	}
+	if m.bsize == 0 {
+		return false
+	}
+	b := m.bbuf[:cap(m.bbuf)]
+	for i := range b {
+		b[i] = verifPoison
+	}
+	h := m.hbuf[:cap(m.hbuf)]
+	for i := range h {
+		h[i] = verifPoison
+	}
+	atomic.AddInt64(&verifPoisoned, 1)
+	if !pooled {
+		return false
+	}
+	verifLedger.Lock()
+	old := verifLedger.ring[verifLedger.pos]
+	verifLedger.ring[verifLedger.pos] = m
+	verifLedger.pos = (verifLedger.pos + 1) % verifRingSize
+	verifLedger.Unlock()
+	if old != nil {
+		verifEvict(old)
+	}
+	return true
+}
+
+func verifEvict(old *Message) {
+	if atomic.LoadInt32(&old.refcnt) != 0 {
+		verifEvent("use-after-release:refcnt", "reference count changed while quarantined")
+		return // do not recycle a message somebody still uses
+	}
+	if !verifPoisonIntact(old) {
+		verifEvent("write-after-release", "poison overwritten while quarantined")
+	} else {
+		atomic.AddInt64(&verifRechecked, 1)
+	}
+	for i := range messageCache {
+		if old.bsize == messageCache[i].maxbody {
+			messageCache[i].pool.Put(old)
+			return
+		}
+	}
+}
+
+func verifNew(m *Message, sz int) {
+	atomic.AddInt64(&verifNews, 1)
+	for {
+		cur := atomic.LoadInt64(&verifMaxSize)
+		if int64(sz) <= cur || atomic.CompareAndSwapInt64(&verifMaxSize, cur, int64(sz)) {
+			break
+		}
+	}
+	if len(m.Body) != 0 || len(m.Header) != 0 || cap(m.Body) < sz {
+		verifEvent("new-postcondition", "")
+	}
+	// A recycled buffer was poisoned on release; if any poison is left, all of it must be.
+	b := m.bbuf[:cap(m.bbuf)]
+	if len(b) > 0 && (b[0] == verifPoison || b[len(b)-1] == verifPoison) {
+		if !verifPoisonIntact(m) {
+			verifEvent("write-after-release", "poison overwritten between quarantine and reuse")
+		}
+	}
+}
+
+// VerifLedger returns a copy of the ledger.
+func VerifLedger() VerifLedgerSnapshot {
+	verifLedger.Lock()
+	ev := append([]VerifLedgerEvent{}, verifLedger.events...)
+	verifLedger.Unlock()
+	return VerifLedgerSnapshot{Events: ev, NEvents: atomic.LoadInt64(&verifNEvents),
+		News: atomic.LoadInt64(&verifNews), Releases: atomic.LoadInt64(&verifReleases),
+		MaxSize: atomic.LoadInt64(&verifMaxSize), Poisoned: atomic.LoadInt64(&verifPoisoned),
+		Rechecked: atomic.LoadInt64(&verifRechecked)}
+}
+
+// VerifLedgerReset clears recorded events and the size high-water mark.
+func VerifLedgerReset() {
+	verifLedger.Lock()
+	verifLedger.events = nil
+	verifLedger.Unlock()
+	atomic.StoreInt64(&verifNEvents, 0)
+	atomic.StoreInt64(&verifMaxSize, 0)
+}
+
+// VerifLedgerFlush evicts the whole quarantine ring (checking every buffer).
+func VerifLedgerFlush() {
+	verifLedger.Lock()
+	var olds []*Message
+	for i := range verifLedger.ring {
+		if verifLedger.ring[i] != nil {
+			olds = append(olds, verifLedger.ring[i])
+			verifLedger.ring[i] = nil
+		}
+	}
+	verifLedger.Unlock()
+	for _, o := range olds {
+		verifEvict(o)
+	}
+}
+
+// VerifRefcnt returns the message's current reference count.
+func VerifRefcnt(m *Message) int32 { return atomic.LoadInt32(&m.refcnt) }
